@@ -29,6 +29,7 @@ connection open / closed with code) reached by every splitting and interleaving
 equals the one of the one-delivery-per-stream run; for valid shapes it equals
 what was submitted on the sending side.
 """
+import hashlib
 import itertools
 import time
 
@@ -254,6 +255,18 @@ def sh_dyn_push(S):
     S.headers(p2, RESP, fin=True)
 
 
+def sh_dyn_push_min(S):
+    """Smallest exchange with a PUSH_PROMISE that references the dynamic table."""
+    S.prime()
+    sid = S.peer_request(GET[:4], True)
+    small = PUSHREQ[:3] + ((b":path", b"/"),)
+    p1 = S.push(sid, small)
+    p2 = S.push(sid, small)
+    S.headers(sid, ((b":status", b"200"),), fin=True)
+    S.headers(p1, ((b":status", b"200"),), fin=True)
+    S.headers(p2, ((b":status", b"200"),), fin=True)
+
+
 def sh_grease_between(S):
     sid, h = _open(S)
     S.headers(sid, h)
@@ -466,7 +479,8 @@ SHAPES = [
     Shape(sh_dyn, "dynamic_table", pair=True),
     Shape(sh_dyn_body_trailers, "dynamic_table", quick=False, pair=True),
     Shape(sh_dyn_acked, "dynamic_table", quick=False, pair=True),
-    Shape(sh_dyn_push, "push_promise_dynamic_table", roles=("server",), pair=True),
+    Shape(sh_dyn_push, "push_promise_dynamic_table", roles=("server",)),
+    Shape(sh_dyn_push_min, "push_promise_dynamic_table", roles=("server",), quick=False, pair=True),
     Shape(sh_grease_between, "unknown_frames_between"),
     Shape(sh_grease_first, "unknown_frames_between", quick=False),
     Shape(sh_grease_wide, "unknown_frames_between", quick=False),
@@ -611,6 +625,12 @@ def variants_for(sc, xs):
 _B = {}  # context of the BFS running in this process
 
 
+def _digest(obj):
+    """sha256 of the canonical state (keeps keys small when the frontier is
+    shipped to pool workers; tuples of bytes/ints/str/None/bool only)."""
+    return hashlib.sha256(repr(obj).encode()).digest()
+
+
 def _moves(pos):
     """pos: tuple of (k, fin_done) per stream under test."""
     out = []
@@ -665,7 +685,7 @@ def _bfs_expand(node):
                 viol = (names, text)
             out.append((mv, None, None, viol, fin_nf))
         else:
-            nkey = (npos, R.state(), R.nf.freeze(R.quic.closed))
+            nkey = (npos, _digest((R.state(), R.nf.freeze(R.quic.closed))))
             out.append((mv, nkey, None, None, None))
     return out
 
@@ -694,7 +714,7 @@ def bfs_case(item, workers=1):
     R0 = Receiver(sc)
     for st in before:
         apply_step(R0, sc, st)
-    root = ((pos0, R0.state(), R0.nf.freeze(R0.quic.closed)), None, [])
+    root = ((pos0, _digest((R0.state(), R0.nf.freeze(R0.quic.closed)))), None, [])
     res = explore.bfs([root], _bfs_expand, workers=workers, name="c14.bfs")
     viols = []
     seen = set()
@@ -757,14 +777,14 @@ def _fmt_hist(sc, xs, hist):
 
 # ================================================ interleaving enumeration
 def cut_candidates(st, wide):
-    """Cut positions of a stream: around every send_stream_data call boundary
-    (frame boundaries), the first and the last byte; `wide`: every position."""
+    """Cut positions of a stream: at and just after every send_stream_data call
+    boundary (frame boundaries) and after the first byte; `wide`: every position."""
     n = len(st["data"])
     if wide:
         return list(range(1, n))
-    c = {1, n - 1}
+    c = {1}
     for b in st["bounds"]:
-        c.update((b - 1, b, b + 1))
+        c.update((b, b + 1))
     return sorted(p for p in c if 1 <= p <= n - 1)
 
 
@@ -995,13 +1015,28 @@ def roundtrip_case(item):
 
 
 # ===================================================================== main
+WATCHDOG_S = 900  # per case; the slowest legitimate case takes seconds
+
+
+def _alarm(signum, frame):
+    raise core.HarnessError(
+        "watchdog: a case did not finish within %d s (handle_event not returning?)" % WATCHDOG_S)
+
+
 def _work(item):
-    k = item[0]
-    if k == "bfs":
-        return bfs_case(item[1:])
-    if k == "inter":
-        return inter_case(item[1:])
-    return roundtrip_case(item[1:])
+    import signal
+
+    signal.signal(signal.SIGALRM, _alarm)
+    signal.alarm(WATCHDOG_S)
+    try:
+        k = item[0]
+        if k == "bfs":
+            return bfs_case(item[1:])
+        if k == "inter":
+            return inter_case(item[1:])
+        return roundtrip_case(item[1:])
+    finally:
+        signal.alarm(0)
 
 
 def _report(ctx, sc_item, v):
@@ -1077,7 +1112,7 @@ def plan_items(ctx):
                 enc = sc["enc"]
                 tgt = [a for a in apps if a != "d"]
                 # the message streams that reference the dynamic table: all but the first
-                for a in (tgt if sh.name == "dyn_push" else tgt[1:]):
+                for a in (tgt[:1] if sh.name == "dyn_push_min" else tgt[1:]):
                     if quick and a != tgt[1]:
                         continue
                     for v in ("ctx_first", "all_after"):
@@ -1100,7 +1135,14 @@ def plan_items(ctx):
 
 
 def run(ctx):
-    shapes, items_rt, items_bfs, items_inter = plan_items(ctx)
+    import signal
+
+    signal.signal(signal.SIGALRM, _alarm)
+    signal.alarm(WATCHDOG_S)  # building the scenarios drives real senders/receivers
+    try:
+        shapes, items_rt, items_bfs, items_inter = plan_items(ctx)
+    finally:
+        signal.alarm(0)
     parts = ctx.only_parts
     outcomes = set()
 
@@ -1130,13 +1172,15 @@ def run(ctx):
             items = [i for i in items if len(i[3]) == 2]
         # longest first for load balance
         items.sort(key=lambda i: -sum(len(scenario(i[1], i[2])["streams"][x]["data"]) for x in i[3]) ** len(i[3]))
-        res = core.pmap(_work, [i for i in items if len(i[3]) == 1], ordered=True)
-        # two-stream BFS: one case at a time, frontier expanded by the pool
-        for i in items:
-            if len(i[3]) == 2:
-                st = scenario(i[1], i[2])["streams"]
-                big = len(st[i[3][0]]["data"]) * len(st[i[3][1]]["data"]) > 600
-                res.append(bfs_case(i[1:], workers=core.NCPU if big else 1))
+        def big(i):
+            if len(i[3]) != 2:
+                return False
+            st = scenario(i[1], i[2])["streams"]
+            return len(st[i[3][0]]["data"]) * len(st[i[3][1]]["data"]) > 600
+
+        res = core.pmap(_work, [i for i in items if not big(i)], ordered=True)
+        # large two-stream BFS: one case at a time, frontier expanded by the pool
+        res += [bfs_case(i[1:], workers=core.NCPU) for i in items if big(i)]
         for nm, sel in (("split", 1), ("pair", 2)):
             rs = [r for r in res if len(r["item"][2]) == sel]
             if not rs:
@@ -1222,7 +1266,7 @@ def run(ctx):
                  "(encoder, last message), (first two messages), (last three messages); <= 3 chunks "
                  "per stream; cut grammar: default cut (after first frame boundary + 1, before last "
                  "byte) for all, then one stream at a time through every cut pair/single cut/FIN "
-                 "alone at positions {1, n-1, b-1, b, b+1 for each frame boundary b} (3-stream "
+                 "alone at positions {1, b, b+1 for each frame boundary b} (3-stream "
                  "groups) or at every position (2-stream groups); quick: default cuts + every 16th "
                  "configuration starting at 1 + seed mod 16",
         "tier_note": "quick: core shapes + seed-selected sixth of the thorough-only shapes "
